@@ -73,9 +73,9 @@ Lemma vr_enabled cfg avail req :
 Proof. intros E H. apply negb_false_iff in H. unfold validate_resources in H. rewrite E in H. exact H. Qed.
 
 Lemma with_refresh_active_res n now cfg c g : g_active_res (with_refresh n now cfg c g) = g_active_res g.
-Proof. unfold with_refresh. destruct (should_issue_refresh cfg c (g_type g)); reflexivity. Qed.
+Proof. unfold with_refresh. destruct (should_issue_refresh cfg c (g_type g) (g_active g)); reflexivity. Qed.
 Lemma with_refresh_granted_res n now cfg c g : g_granted_res (with_refresh n now cfg c g) = g_granted_res g.
-Proof. unfold with_refresh. destruct (should_issue_refresh cfg c (g_type g)); reflexivity. Qed.
+Proof. unfold with_refresh. destruct (should_issue_refresh cfg c (g_type g) (g_active g)); reflexivity. Qed.
 
 Notation sok := (saves_ok_r within_r anyA).
 
